@@ -766,7 +766,10 @@ func rawStream(r *rng, docs []cdoc, n int, f func(in codecInput)) {
 		}
 	}
 	nests := []nestSpec{{"[", "1", "]", 20000}, {`{"allOf":[`, `{}`, `]}`, 20000}, {`{"a":`, `1`, `}`, 20000}, {`{"items":`, `{}`, `}`, 20000},
-		{`{"properties":{"a":`, `{}`, `}}`, 9000}, {`[`, ``, ``, 20000}, {`{"not":`, `{}`, `}`, 4000}, {`{"schema":{"items":[`, `{}`, `]}}`, 3000}}
+		{`{"properties":{"a":`, `{}`, `}}`, 9000}, {`[`, ``, ``, 20000}, {`{"not":`, `{}`, `}`, 4000}, {`{"schema":{"items":[`, `{}`, `]}}`, 3000},
+		// moderately deep (far below the depth at which encoding/json gives up): work that doubles with every level shows here
+		{`{"type":"array","items":`, `{"type":"string"}`, `}`, 48}, {`{"items":`, `{}`, `}`, 64}, {`{"schema":{"items":`, `{}`, `}}`, 40},
+		{`{"additionalProperties":`, `{}`, `}`, 48}, {`{"headers":{"h":{"type":"array","items":`, `{"type":"string"}`, `}}}`, 36}}
 	for _, k := range kindNames {
 		for i := range nests {
 			ns := nests[i]
